@@ -97,11 +97,16 @@ pub open spec fn fwd_val(c: Seq<u8>) -> ${W} {
     (pack(c.subrange(0, h)) << ((2 * h) as ${W})) | pack(c.subrange(h + 1, c.len() as int))
 }
 
-// canonical (k-mer, middle base, was-reverse-complemented) of a code window — "the lower-ordered
-// orientation", ties keep the forward strand
-pub open spec fn canon(c: Seq<u8>, rc: bool) -> (${W}, u8, bool) {
+// what get_curr_kmer may return for a code window: the lower-ordered orientation with its middle base and the
+// strand flag; when both orientations pack to the same value (the k-mer is its own reverse complement) either
+// one is acceptable — the property does not fix the tie, and such k-mers are stored as W/S/N anyway
+pub open spec fn canon_ok(c: Seq<u8>, rc: bool, res: (${W}, u8, bool)) -> bool {
     let h = (c.len() - 1) / 2;
-    if rc && fwd_val(c) > fwd_val(rcc(c)) { (fwd_val(rcc(c)), rcc(c)[h], true) } else { (fwd_val(c), c[h], false) }
+    let f = fwd_val(c);
+    let r = fwd_val(rcc(c));
+    if !rc || f < r { res == (f, c[h], false) }
+    else if f > r { res == (r, rcc(c)[h], true) }
+    else { res == (f, c[h], false) || res == (r, rcc(c)[h], true) }
 }
 
 pub open spec fn palin(c: Seq<u8>) -> bool {
